@@ -389,19 +389,28 @@ func genZeroCut(g *vlib.G) {
 	}
 }
 
-// genSelfLoop: multigraphs with positive self loops (simple graphs cannot
-// have them). A positive self loop changes no distance and no shortest path,
-// so the reference ignores it. 2-node multigraphs over {absent,1,2} and
-// 3-node multigraphs over {absent,1}, directed and undirected, each node with
-// a self loop in {absent,1,2}; both multi container kinds, three ID maps.
+// genSelfLoop: graphs WITH SELF LOOPS of weight -1, 0, 1 or 2. gonum's simple
+// graphs cannot hold them, multigraphs and user graph types can, and the path
+// routines accept any graph.Graph. A negative self loop is a negative cycle
+// through its node (ok=false / -Inf for everything routed through it, the
+// documented panic of the Dijkstra family), a zero-weight one a zero-weight
+// cycle (never returned, `unique` false when it touches the path), a
+// positive one changes nothing. Spaces: 2-node graphs over {absent,-1,0,1,2}
+// and 3-node graphs over {absent,1} (thorough {absent,1,2}), directed and
+// undirected, self loops in {absent,-1,0,1,2} on every node (n=2) resp. on at
+// most two nodes (n=3), at least one. Containers: multi-sum, multi-min and a
+// wrapper that adds the loops to a simple graph (three node orders); three ID
+// maps rotating. Every static routine (ctx.run) plus Yen on the graphs
+// without negative weights.
 func genSelfLoop(g *vlib.G) {
+	loopAlpha := alphaA // -1, 0, 1, 2
 	for _, directed := range []bool{true, false} {
 		for n := 2; n <= 3; n++ {
 			n, directed := n, directed
 			ps := pairs(n, directed)
-			alpha := alphaB
+			alpha := alphaA
 			if n == 3 {
-				alpha = alphaOne
+				alpha = vlib.Pick(g, alphaOne, alphaB)
 			}
 			kind := "und"
 			if directed {
@@ -409,23 +418,42 @@ func genSelfLoop(g *vlib.G) {
 			}
 			odometer(len(ps), len(alpha)+1, func(idx int, digits []int) bool {
 				d := append([]int(nil), digits...)
-				odometer(n, 3, func(lidx int, loops []int) bool {
-					l := append([]int(nil), loops...)
-					if lidx == 0 {
-						return true // no self loop at all: covered elsewhere
+				odometer(n, len(loopAlpha)+1, func(lidx int, loops []int) bool {
+					nl := 0
+					for _, v := range loops {
+						if v > 0 {
+							nl++
+						}
 					}
-					gcase(g, fmt.Sprintf("n=%d %s w=%s loops=%s", n, kind, digitString(d, alpha), digitString(l, alphaB)), func(t *vlib.T) {
+					if nl == 0 || nl > 2 {
+						return true
+					}
+					l := append([]int(nil), loops...)
+					gcase(g, fmt.Sprintf("n=%d %s w=%s loops=%s", n, kind, digitString(d, alpha), digitString(l, loopAlpha)), func(t *vlib.T) {
 						sp := specFromDigits(n, directed, ps, d, alpha)
 						for i, v := range l {
 							if v > 0 {
 								sp.has[i][i] = true
-								sp.w[i][i] = alphaB[v-1]
+								sp.w[i][i] = loopAlpha[v-1]
 							}
 						}
 						r := newRef(sp)
-						for _, k := range []int{kMultiSum, kMultiMin} {
-							for idk := 0; idk < 3; idk++ {
-								newCtx(t, r, k, idk).run()
+						gi := idx*7 + lidx
+						var cs []*ctx
+						cs = append(cs, newCtx(t, r, kMultiSum, gi%3), newCtx(t, r, kMultiMin, (gi+1)%3))
+						for order := 0; order < 3; order++ {
+							idk := (gi + order) % 3
+							cs = append(cs, newCtxWith(t, r, idk, buildLoopView(sp, idMap(idk, n), order), fmt.Sprintf("loopview-order%d", order)))
+						}
+						for _, c := range cs {
+							c.run()
+							if nonNegative(sp) {
+								for s := 0; s < n; s++ {
+									for tt := 0; tt < n; tt++ {
+										c.yen(s, tt, -1, inf)
+										c.yen(s, tt, 2, 1)
+									}
+								}
 							}
 						}
 						t.Nontrivial()
